@@ -1,1 +1,112 @@
-fn main() {}
+//! Child process for C19: one construct, one depth, one operation, one stack size.
+//! usage: rvv_deep <construct> <depth> <op> <stack-bytes>
+//! Exits 0 when the operation completed (with a value or an error); a stack overflow kills the
+//! process with a signal, which the parent observes. Exit 3 = the setup (parsing the text) was refused.
+
+use reval::prelude::*;
+
+fn text_for(construct: &str, depth: usize) -> String {
+    match construct {
+        "neg" => format!("{}a", "-".repeat(depth)),
+        "not" => format!("{}true", "!".repeat(depth)),
+        "add" => vec!["i1"; depth + 1].join("+"),
+        "and" => vec!["true"; depth + 1].join(" and "),
+        "call" => format!("{}i1{}", "f(".repeat(depth), ")".repeat(depth)),
+        "builtin" => format!("{}i1{}", "int(".repeat(depth), ")".repeat(depth)),
+        "list" => format!("{}i1{}", "[".repeat(depth), "]".repeat(depth)),
+        "map" => format!("{}i1{}", "{k:".repeat(depth), "}".repeat(depth)),
+        "ifcond" => format!("{}true{}", "if ".repeat(depth), " then true else false".repeat(depth)),
+        "ifelse" => format!("{}i2", "if false then i1 else ".repeat(depth)),
+        "paren" => format!("{}i1{}", "(".repeat(depth), ")".repeat(depth)),
+        "index" => format!("a{}", ".b".repeat(depth)),
+        "contains" => format!("{}[i1] contains i1{}", "[".repeat(depth), "] contains true".repeat(depth)),
+        _ => panic!("unknown construct {construct}"),
+    }
+}
+
+fn block_on<F: std::future::Future>(fut: F) -> F::Output {
+    let mut fut = std::pin::pin!(fut);
+    let waker = std::task::Waker::noop();
+    let mut cx = std::task::Context::from_waker(waker);
+    loop {
+        if let std::task::Poll::Ready(v) = fut.as_mut().poll(&mut cx) {
+            return v;
+        }
+    }
+}
+
+fn run(construct: &str, depth: usize, op: &str) -> i32 {
+    let text = text_for(construct, depth);
+    if op == "parse" {
+        let r = Expr::parse(&text);
+        std::mem::forget(r);
+        return 0;
+    }
+    if op == "parse-rule" {
+        let r = Rule::parse(&format!("// deep\n{text}"));
+        std::mem::forget(r);
+        return 0;
+    }
+    let e = match Expr::parse(&text) {
+        Ok(e) => e,
+        Err(_) => return 3,
+    };
+    match op {
+        "display" => {
+            let s = e.to_string();
+            std::mem::forget(s);
+            std::mem::forget(e);
+        }
+        "debug" => {
+            let s = format!("{e:?}");
+            std::mem::forget(s);
+            std::mem::forget(e);
+        }
+        "clone" => {
+            let c = e.clone();
+            std::mem::forget(c);
+            std::mem::forget(e);
+        }
+        "compare" => {
+            let other = match Expr::parse(&text) {
+                Ok(o) => o,
+                Err(_) => return 3,
+            };
+            let eq = e == other;
+            std::mem::forget(other);
+            std::mem::forget(e);
+            if !eq {
+                return 4;
+            }
+        }
+        "drop" => drop(e),
+        "evaluate" => {
+            let facts = Value::None;
+            let r = block_on(e.evaluate(&facts));
+            std::mem::forget(r);
+            std::mem::forget(e);
+        }
+        _ => panic!("unknown op {op}"),
+    }
+    0
+}
+
+fn main() {
+    let a: Vec<String> = std::env::args().collect();
+    if a.len() < 5 {
+        eprintln!("usage: rvv_deep <construct> <depth> <op> <stack-bytes>");
+        std::process::exit(2);
+    }
+    let construct = a[1].clone();
+    let depth: usize = a[2].parse().expect("depth");
+    let op = a[3].clone();
+    let stack: usize = a[4].parse().expect("stack bytes");
+    let h = std::thread::Builder::new()
+        .stack_size(stack)
+        .spawn(move || run(&construct, depth, &op))
+        .expect("spawn");
+    match h.join() {
+        Ok(code) => std::process::exit(code),
+        Err(_) => std::process::exit(5), // a panic (not a stack overflow): the operation returned by unwinding
+    }
+}
